@@ -7,5 +7,6 @@ CONSTANTS
   MAXUPD = 0
   CANCELS = 1
   TIMERS = FALSE
+  SeesAdmitting = TRUE
 CONSTRAINT Emit
 CHECK_DEADLOCK FALSE
